@@ -133,7 +133,7 @@ Proof.
     { unfold fr. destruct Hcause as [->|?]; auto. }
     assert (Hne : effb i = true -> edirty (getn sa i) = false).
     { intros He. unfold GraphInvariant.effb in He. rewrite Hd in He. discriminate. }
-    destruct (memo_begin p stk i fr sa Ia Hni Hgt Hil (fun _ => Hnca) Hne Hfrc)
+    destruct (memo_begin p stk i fr sa (Inv_InvBut p i stk i sa Ia) (inv_queue _ _ _ _ Ia i) Hni Hgt Hil (fun _ => Hnca) Hne Hfrc)
       as (Ic & L1c & Pc & Hsuc & Hcac & Hstc & Hfrm & _).
     set (sc := begin_run fr i (clear_sources i sa)) in *.
     destruct (eval p R false (Some i, true) e sc) as [se v] eqn:Eev.
